@@ -215,13 +215,24 @@ def run_case(case):
     m0, P0 = extract.normal_dense(cfg["prior"].init)
     ref, final = kalman.filter_run(model, mpl.M(m0), mpl.M(P0), list(grid), cal=cal, relinearize=case["relin"],
                                    constraint_init=cinit, correct=case["correct"])
+    # rounding noise carried by the means (|K| dz per step, propagated with the entrywise amplification bound) also reaches
+    # every later residual and with it the scale estimates: sigma_prop[k] bounds that second-order path
+    noise_hist = [np.zeros(n * d)]
+    sigma_prop = [None]
+    for st in ref[1:]:
+        dzp = st["dz_dm"] @ (3 * noise_hist[-1])
+        if cal in ("mle", "dynamic") and np.any(dzp > 0):
+            sigma_prop.append(kalman.rms_sensitivity(st["z"], st["S_cal"], dzp, fact=fact, d=d))
+        else:
+            sigma_prop.append(0.0)
+        noise_hist.append(st["amplification"] @ noise_hist[-1] + st["mean_noise"])
     noise_acc = np.zeros(n * d)
     rel_dyn = 0.0
     rel_mle = 0.0
     if cal == "mle":
         sq = np.zeros((d,))
-        for st in ref[1:]:
-            sq = sq + np.broadcast_to(np.asarray(st["sigma_noise"], float), (d,)) ** 2
+        for st, sp in zip(ref[1:], sigma_prop[1:]):
+            sq = sq + (np.broadcast_to(np.asarray(st["sigma_noise"], float), (d,)) + np.broadcast_to(np.asarray(sp, float), (d,))) ** 2
         N = len(ref) - 1
         s_noise_total = np.sqrt(sq / N) / (np.sqrt(N) if case["correct"] else 1.0)
         s_fin = _sigma_vec(final, d)
@@ -233,7 +244,8 @@ def run_case(case):
             noise_acc = ref[k]["amplification"] @ noise_acc + ref[k]["mean_noise"]
             if cal == "dynamic":
                 sr = _sigma_vec(ref[k]["sigma"], d)
-                rel_dyn = max(rel_dyn, float(np.max(np.broadcast_to(np.asarray(ref[k]["sigma_noise"], float), (d,)) / np.maximum(sr, 1e-300))))
+                sn = np.broadcast_to(np.asarray(ref[k]["sigma_noise"], float), (d,)) + np.broadcast_to(np.asarray(sigma_prop[k], float), (d,))
+                rel_dyn = max(rel_dyn, float(np.max(sn / np.maximum(sr, 1e-300))))
         if cal == "mle":
             P_ref = kalman.scale_cov(P_ref, final, n, d)
         m_ref, P_ref = mpl.F(ref[k]["m"]), mpl.F(P_ref)
